@@ -5,14 +5,17 @@ Proof side: lean/TallyVerif/Props/C20.lean (`readonly_frame`/`up_frame` for arbi
 Tie (this file): generated budgets (old `./config` and new `./tally/config` layout; every settings kind;
 legacy CSV absent / header-only / with rules; merchants.rules, .bak, views.rules, data/output present or
 not; optionally with the user's own .gitignore / README / notes / dotfiles / look-alike files in and beside
-the budget folder, and with settings that reference a views file, rules file or statement that is not there)
+the budget folder, with settings that reference a views file, rules file or statement that is not there, and with
+the files in other byte-level forms than LF / UTF-8 / newline-terminated: CRLF, CR, mixed, no final newline, BOM,
+trailing blanks, non-ASCII comments, very long lines; other permission bits)
 × command sequences (up, up -q, up --format summary|json, explain, discover, diag, inspect, init,
 up --migrate), each command run by the real `tally.cli.main()` in a forked child of a `/venv/bin/python`
 server with stdin closed, under `sys.addaudithook`; content of every file before/after.
   correspondence   changed paths of the real run == changed paths of the model (`tvdrv` op `fsseq`)
   oracle           (implementation only) read-only commands change and open-for-write nothing outside the
                    output location; `init` / `up --migrate` keep every existing file (settings may only be
-                   appended to; the CSV may only move to a backup name that was free; permission bits stay) and
+                   appended to — BYTE-wise: the old bytes are a prefix of the new ones; the CSV may only move to a
+                   backup name that was free; permission bits stay, also on an appended-to settings.yaml) and
                    create only the files they are documented to create.
 PARTIAL: argparse/terminal glue and OS durability are not modelled; writes outside the budget directory
 (none observed) are reported in the evidence but are not "the user's statements, rules or settings".
@@ -61,8 +64,51 @@ RULELESS = ['# my notes 77aa\n# nothing here yet\n', 'field.description = regex_
             'is_big = amount > 100\n# variables only 99cc\n', '', '\n\n', '# 11dd\nfield.memo = trim(field.memo)\nis_q1 = month <= 3\n']
 
 
-def gen_variation(rng, shape, layout, force_ruleless=False):
+# (d) the byte-level form of every one of these files (fsmon.byteform): CRLF / CR / mixed line endings, no final newline, a UTF-8 BOM,
+#     trailing blanks, a blank tail, non-ASCII comments, a very long line — and permission bits other than the default on tally's own
+#     kinds of files.  The frame condition is checked on BYTES: identical for every file but settings.yaml, whose old bytes must be a
+#     PREFIX of the new ones when `init` / the migration add their key ("may only gain appended lines"), with the permission bits kept.
+COMMENTABLE = ('config/settings.yaml', 'config/merchants.rules', 'config/other.rules', 'config/views.rules', 'config/merchant_categories.csv',
+               '.gitignore')
+OWN_MODES = [0o600, 0o640, 0o664, 0o755, 0o660]
+# forms that are kept away from a file because they change what tally READS there (the Lean model fixes the meaning of each shape: a
+# settings file that loads, a legacy CSV with / without rules, a statement with three transactions).  None of them is a write.
+#   legacy CSV × BOM: merchant_utils.load_merchant_rules opens the file as 'utf-8' (not 'utf-8-sig'), the header cell becomes '\ufeffPattern',
+#   every row's row.get('Pattern') is '' and the file silently holds 0 rules; `init` (whose own scan then sees '\ufeffPattern,…' as a rule line)
+#   "migrates" even a header-only CSV ("Converted 0 merchant rules", CSV moved to a fresh .bak, empty merchants.rules, settings line
+#   appended).  Every existing file is kept, so C20 holds; but the budget no longer has the meaning the shape `headerOnly` / `withRules`
+#   has in the model (changed paths differ).  Reported in notes/C20_notes.md (observation O20-bom-csv), not a C20 failure.
+BYTEFORM_EXCLUDED = {'config/merchant_categories.csv': ('bom',)}
+
+
+def gen_byteform(rng, rels, must=None):
+    """{rel: [forms]} for some of the files of the case; `must`: a file that certainly gets a form"""
+    out = {}
+    for rel in rels:
+        if rel != must and rng.random() >= (0.7 if rel.endswith('settings.yaml') else 0.3):
+            continue
+        forms = rng.sample(fsmon.BYTEFORMS, rng.choice([1, 1, 2, 3]))
+        forms = [f for f in forms if (rel in COMMENTABLE or f not in fsmon.COMMENT_FORMS) and f not in BYTEFORM_EXCLUDED.get(rel, ())]
+        if forms:
+            out[rel] = sorted(forms)
+    return out
+
+
+def gen_variation(rng, shape, layout, force_ruleless=False, byteforms=True):
     """case-level variations of the budget (all optional; about half of the cases keep the bare shape)"""
+    v = _gen_variation(rng, shape, layout, force_ruleless)
+    if byteforms and rng.random() < 0.6:
+        rels = sorted(fsmon.shape_files(shape)[0]) + sorted(v.get('extra_files') or {})
+        bf = gen_byteform(rng, rels)
+        if bf:
+            v['byteform'] = bf
+        modes = {rel: rng.choice(OWN_MODES) for rel in sorted(fsmon.shape_files(shape)[0]) if rng.random() < 0.25}
+        if modes:
+            v['modes'] = modes
+    return v
+
+
+def _gen_variation(rng, shape, layout, force_ruleless=False):
     v = {}
     if shape.get('rules') and shape['settings'] != 'keyRules' and (force_ruleless or rng.random() < 0.25):
         v['rules_text'] = rng.choice(RULELESS)        # a merchants.rules of the user's that holds no [rule] block: still the user's file
@@ -107,6 +153,27 @@ def gen_cases(rng, quick):
     ruleless = [s for s in targeted if s['rules']]
     targeted = targeted + ruleless
     picks = targeted + [rng.choice(core if rng.random() < 0.8 else shapes) for _ in range(n - len(targeted))]
+    # append sites × byte-level forms: each place where tally adds a key to settings.yaml (`init`: views_file; `init` / `up --migrate` on
+    # a legacy budget: merchants_file) meets a settings.yaml in each byte-level form — its old bytes must be a prefix of the new ones
+    no_mention = [s for s in core if not s['mentionsVF'] and s['settings'] in ('plain', 'keyRules', 'keyOther')]
+    sites = [([s for s in no_mention if s['csv'] == 'absent'], WRITERS[0]),
+             ([s for s in no_mention if s['csv'] == 'withRules' and s['settings'] == 'plain' and not s['rules']], WRITERS[0]),
+             ([s for s in no_mention if s['csv'] == 'withRules' and s['settings'] == 'plain' and not s['rules']], WRITERS[1])]
+    k = 0
+    for form in fsmon.BYTEFORMS:
+        for pool, writer in sites:
+            s = rng.choice(pool)
+            layout = 'new' if k % 2 else 'old'
+            k += 1
+            seq = [writer, rng.choice(READONLY)]
+            data = ('tally/' if layout == 'new' else '') + 'data/bank.csv'
+            case = {'kind': 'c20', 'shape': s, 'layout': layout, 'commands': [[(data if a == 'DATA' else a) for a in argv] for argv, _ in seq],
+                    'programs': [p for _, p in seq], 'byteform': {'config/settings.yaml': [form]}}
+            if rng.random() < 0.5:
+                case['byteform'].update(gen_byteform(rng, sorted(set(fsmon.shape_files(s)[0]) - {'config/settings.yaml'})))
+            if rng.random() < 0.4:
+                case['modes'] = {'config/settings.yaml': rng.choice(OWN_MODES)}
+            cases.append(case)
     for i, s in enumerate(picks):
         layout = 'new' if i % 3 == 1 else 'old'
         L = rng.randint(2, 4)
@@ -185,7 +252,8 @@ def oracle(case, res):
                         fails.append(dict(where, **{'class': 'created-undocumented-path', 'path': p,
                                                     'observed': f'{" ".join(st["argv"])} created {p}, which is none of the files it is documented to create'}))
                     continue
-                if 'mode' in d and d['before'] == d['after']:
+                kept_in_place = d['before'] == d['after'] or (p.endswith('settings.yaml') and d['appended'] and d['after'] not in ('absent', 'dir'))
+                if 'mode' in d and kept_in_place:         # same bytes, or settings.yaml with lines appended: still the user's file
                     fails.append(dict(where, **{'class': 'existing-file-mode-changed', 'path': p,
                                                 'observed': f'{" ".join(st["argv"])}: permission bits of {p} {d["mode"][0]} -> {d["mode"][1]}'}))
                     continue
@@ -201,6 +269,10 @@ def oracle(case, res):
                     continue                               # replaced, but the old content went to a name that was free
                 why = ('lines were appended, which only settings.yaml may gain' if d['appended'] and d['after'] not in ('absent', 'dir')
                        else 'not an append; old content not moved to a free name')
+                fd = d.get('first_diff')
+                if fd:
+                    why += (f'; the old {fd["old_len"]} bytes are not a prefix of the new {fd["new_len"]}: first difference at byte {fd["offset"]}, '
+                            f'old …{fd["old"]}… new …{fd["new"]}…')
                 fails.append(dict(where, **{'class': 'existing-file-not-kept', 'path': p,
                                             'observed': f'{" ".join(st["argv"])}: {p} {d["before"]} -> {d["after"]} ({why})'}))
     return fails
@@ -288,7 +360,9 @@ def run(ctx):
     var = {'cases': len(cases), 'bare_shape': 0, 'users_gitignore': {}, 'users_gitignore_without_data_and_output_entries': 0,
            'foreign_files': 0, 'cases_with_foreign_files': 0, 'files_with_unusual_mode': 0, 'files_beside_the_budget_folder': 0,
            'views_file_key': 0, 'views_file_key_dangling': 0, 'merchants_file_key_dangling': 0, 'missing_statement_source': 0,
-           'commands_on_dangling_views_file': {}, 'init_with_users_gitignore': 0, 'largest_tree': 0}
+           'commands_on_dangling_views_file': {}, 'init_with_users_gitignore': 0, 'largest_tree': 0,
+           'cases_with_a_byte_level_form': 0, 'files_by_byte_level_form': {}, 'byte_level_form_by_file': {}, 'files_of_tallys_kinds_with_unusual_mode': 0,
+           'settings_appended_to': 0, 'settings_appended_to_by_byte_level_form': {}, 'settings_appended_to_with_unusual_mode': 0}
     try:
         for c, r in zip(cases, real):
             ex = c.get('extra_files') or {}
@@ -312,6 +386,20 @@ def run(ctx):
             if dangling and r.get('steps'):
                 key = ' '.join(a for a in r['steps'][0]['argv'] if '/' not in a)       # the first command meets the dangling reference
                 var['commands_on_dangling_views_file'][key] = var['commands_on_dangling_views_file'].get(key, 0) + 1
+            bf = c.get('byteform') or {}
+            var['cases_with_a_byte_level_form'] += bool(bf)
+            for rel, forms in bf.items():
+                var['byte_level_form_by_file'][rel] = var['byte_level_form_by_file'].get(rel, 0) + 1
+                for f in forms:
+                    var['files_by_byte_level_form'][f] = var['files_by_byte_level_form'].get(f, 0) + 1
+            var['files_of_tallys_kinds_with_unusual_mode'] += len(c.get('modes') or {})
+            sp = (r.get('prefix') + '/' if r.get('prefix') else '') + 'config/settings.yaml'
+            for st in r.get('steps', []):
+                if (st['detail'].get(sp) or {}).get('appended'):
+                    var['settings_appended_to'] += 1
+                    var['settings_appended_to_with_unusual_mode'] += 'config/settings.yaml' in (c.get('modes') or {})
+                    for f in bf.get('config/settings.yaml') or ['plain-lf']:
+                        var['settings_appended_to_by_byte_level_form'][f] = var['settings_appended_to_by_byte_level_form'].get(f, 0) + 1
             var['largest_tree'] = max([var['largest_tree']] + [st.get('tree_size', 0) for st in r.get('steps', [])])
     except Exception as e:                                               # noqa
         var['error'] = repr(e)[:200]
@@ -327,7 +415,13 @@ def run(ctx):
                         'settings that point at what is not there: views_file as a real key with views.rules absent, merchants_file with the rules '
                         'file absent, a second data source without its statement (counts: notes.budget_variations). Frame condition: read-only '
                         'commands change nothing (bytes, modes, new paths) outside output/; init / up --migrate keep every existing file and '
-                        'create only the documented ones. non-trivial = a legacy-CSV budget on which some command changed the tree')
+                        'create only the documented ones. Byte-level forms: in ~60 % of the cases some of the files (settings.yaml mostly, also '
+                        'rules / legacy CSV / backup / views / statement / old report / the user\'s extra files) are written with CRLF, CR or mixed '
+                        'line endings, without final newline, with a UTF-8 BOM, trailing blanks, a blank tail, a non-ASCII comment or a 9 kB line, and '
+                        'tally\'s own kinds of files get modes 600/640/660/664/755; plus 27 targeted cases = each of the 9 forms of settings.yaml × each '
+                        'place that appends a key to it (init: views_file; init / up --migrate on a legacy budget: merchants_file). The frame is '
+                        'judged on bytes: identical, or — settings.yaml only — old bytes a prefix of the new ones, same permission bits (counts: '
+                        'notes.budget_variations.*byte_level_form*, settings_appended_to*). non-trivial = a legacy-CSV budget on which some command changed the tree')
 
     def search():
         import random
